@@ -69,7 +69,9 @@ TEXT = {
           "sweep is again a list of non-empty, increasing, pairwise disjoint intervals (C13_intersect_nf, sweep invariant), and for operands "
           "in normal form it is in the same normal form - well-formed intervals with gaps that cannot be closed (C13_intersect_nfs; "
           "cwi_bounds: the piece handed back starts at the later lower bound and ends at the earlier upper bound), so the theorems "
-          "about normal forms apply to everything built by unions and intersections. The converse "
+          "about normal forms apply to everything built by unions and intersections; a set in normal form that passes "
+          "lp_feasibility_set_is_point_int contains exactly one integer (C13_isPointInt_sound: the early-exit count agrees with the "
+          "saturating count) and the interval of lp_feasibility_set_to_interval contains the whole set (C13_toInterval). The converse "
           "of the status (NEW never reported for a result equal to an operand), the saturation of counts "
           "and picking are tied by correspondence only (exhaustive over all "
           "128x128 normal-form sets on the atoms of {0,1,2}, 512x512 in the thorough tier, plus random pools with algebraic end points, "
